@@ -18,7 +18,7 @@ func vC11Observe(vm *Context, err error) string {
 	return out + " | " + vm.GetDetailText() + " | " + vm.Matched + " | " + vm.RestInput + " | " + vAttrsString(vm)
 }
 
-//vh:prop=C11 tiers=quick,thorough sigkeys=a,b summaries=Roll:roll-log budget_s=900 bounds="sequential non-interference for every ordered pair of the 15 entry scenarios on two VMs: after VM A finished, VM B (different language, different program) runs to completion; everything observable of A (value, process text, matched/rest text, variables) is unchanged, and A's next evaluation gives what it gives on a VM that never shared the process with B"
+//vh:prop=C11 tiers=quick,thorough sigkeys=a,b summaries=Roll:roll-log budget_s=900 bounds="sequential non-interference for every ordered pair of the 18 entry scenarios (three of them continue with an expression compiled on demand through RunExpr, two of those ill-formed) on two VMs: after VM A finished, VM B (different language, different program) runs to completion; everything observable of A (value, process text, matched/rest text, variables) is unchanged, and A's next evaluation gives what it gives on a VM that never shared the process with B"
 func VH_C11_seq() {
 	ia := vChoice("a", len(vC11Entries))
 	ib := vChoice("b", len(vC11Entries))
@@ -43,11 +43,25 @@ func VH_C11_seq() {
 	vReach("ran")
 	vAssert(vC11Observe(a, ea) == before, "finished-evaluation-unchanged-by-another-VM")
 	// A's next evaluation equals that of a VM that ran alone
-	ea2 := a.Run(vC11Entries[ia].src)
+	next := func(vm *Context) string {
+		if x := vC11Entries[ia].expr; x != "" {
+			// an expression compiled on demand (no top-level Parse in between)
+			v, err := vm.RunExpr(x, false)
+			out := ""
+			if v != nil {
+				out = v.ToRepr()
+			}
+			if err != nil {
+				out += " error: " + err.Error()
+			}
+			return out + " | " + vC11Observe(vm, nil)
+		}
+		return vC11Observe(vm, vm.Run(vC11Entries[ia].src))
+	}
+	got := next(a)
 	alone := mk(ia)
 	_ = alone.Run(vC11Entries[ia].src)
-	eal := alone.Run(vC11Entries[ia].src)
-	vAssert(vC11Observe(a, ea2) == vC11Observe(alone, eal), "next-evaluation-as-when-run-alone")
+	vAssert(got == next(alone), "next-evaluation-as-when-run-alone")
 }
 
 // API entry points as one goroutine would use them, each on its own VM
@@ -56,25 +70,29 @@ var vC11Entries = []struct {
 	seeded bool
 	lang   int
 	src    string
+	expr   string // if set: the VM's next evaluation is this expression through RunExpr
 }{
-	{"parse-error-cn", true, ParseErrorLanguageChinese, "1 +"},
-	{"parse-error-en", true, ParseErrorLanguageEnglish, "(1"},
-	{"dice-unseeded", false, 0, "2d20kh1 + d6"},
-	{"dice-seeded", true, 0, "2d20kh1 + d6 + 2a8 + f + b1"},
-	{"bound-method", true, 0, "[1,2,3].sum() + [4].len()"},
-	{"function", true, 0, "func fn1(n) { return n * 2 }; fn1(21)"},
-	{"computed", true, 0, "&v1 = 1 + 1; v1 + v1"},
-	{"template-detail", true, 0, "`a{1+1}b{% x = 2 %}`"},
-	{"dict-methods", true, 0, "{'a':1,'b':2}.keys().len() + {'a':1}.a"},
-	{"builtins", true, 0, "toStr(1) + repr([1]) + toStr(abs(-2)) + toStr(ceil(1.5))"},
-	{"shuffle-unseeded", false, 0, "[3,1,2].shuffle(); [1,2].rand()"},
-	{"shuffle-seeded", true, 0, "[3,1,2].shuffle(); [1,2].rand()"},
-	{"st", true, 0, "^st力量60敏捷+1"},
-	{"default-sides", true, 0, "d + 2d"},
-	{"runtime-error", true, 0, "1 / 0"},
+	{"parse-error-cn", true, ParseErrorLanguageChinese, "1 +", ""},
+	{"parse-error-en", true, ParseErrorLanguageEnglish, "(1", ""},
+	{"dice-unseeded", false, 0, "2d20kh1 + d6", ""},
+	{"dice-seeded", true, 0, "2d20kh1 + d6 + 2a8 + f + b1", ""},
+	{"bound-method", true, 0, "[1,2,3].sum() + [4].len()", ""},
+	{"function", true, 0, "func fn1(n) { return n * 2 }; fn1(21)", ""},
+	{"computed", true, 0, "&v1 = 1 + 1; v1 + v1", ""},
+	{"template-detail", true, 0, "`a{1+1}b{% x = 2 %}`", ""},
+	{"dict-methods", true, 0, "{'a':1,'b':2}.keys().len() + {'a':1}.a", ""},
+	{"builtins", true, 0, "toStr(1) + repr([1]) + toStr(abs(-2)) + toStr(ceil(1.5))", ""},
+	{"shuffle-unseeded", false, 0, "[3,1,2].shuffle(); [1,2].rand()", ""},
+	{"shuffle-seeded", true, 0, "[3,1,2].shuffle(); [1,2].rand()", ""},
+	{"st", true, 0, "^st力量60敏捷+1", ""},
+	{"default-sides", true, 0, "d + 2d", ""},
+	{"runtime-error", true, 0, "1 / 0", ""},
+	{"lazy-syntax-error-en", true, ParseErrorLanguageEnglish, "x = 1", "(x + 2"},
+	{"lazy-syntax-error-cn", true, ParseErrorLanguageChinese, "x = 1", "[x, 2"},
+	{"lazy-expression", true, 0, "x = 5", "x + 2d1"},
 }
 
-//vh:prop=C11 tiers=quick,thorough sigkeys=entry summaries=Roll:roll-log budget_s=600 bounds="15 API entry-point scenarios (syntax errors in two languages, seeded and unseeded dice of every family, bound methods, functions, computed values, templates with process text and bytecode listing, dict methods, builtins, random array methods, st, default-sides dice, run-time error) each on a fresh VM including NewVM, Run, all observers and a JSON snapshot: over all explored paths no plain (unlocked, non-atomic) store may hit memory reachable from a package-level variable of dicescript or x/exp/rand; W = {} means VMs that share no values can only meet on immutable data"
+//vh:prop=C11 tiers=quick,thorough sigkeys=entry summaries=Roll:roll-log budget_s=600 bounds="18 API entry-point scenarios (syntax errors in two languages, seeded and unseeded dice of every family, bound methods, functions, computed values, templates with process text and bytecode listing, dict methods, builtins, random array methods, st, default-sides dice, run-time error) each on a fresh VM including NewVM, Run, all observers and a JSON snapshot: over all explored paths no plain (unlocked, non-atomic) store may hit memory reachable from a package-level variable of dicescript or x/exp/rand; W = {} means VMs that share no values can only meet on immutable data"
 func VH_C11_foot() {
 	k := vChoice("entry", len(vC11Entries))
 	e := vC11Entries[k]
